@@ -61,6 +61,22 @@ if fn in ("load", "loads", "load_all", "loads_all"):
         objs = got[1] if isinstance(got[1], list) else [got[1]]
         bad = got[0] != "ok" or (name is not None and any(getattr(o, "name", None) != name for o in objs))
         if not bad and fn == "load":
+            # without a key: the first drawn fragment of the file, for every bundled drawing
+            import glob
+            for f_ in sorted(glob.glob(os.path.join(os.path.dirname(ml.__file__), "files", "*.cdxml"))):
+                c_ = ml.CDXMLFile(f_)
+                if not c_.xfrags:
+                    continue
+                try:
+                    want_ = ml.Molecule(c_._parse_fragment(c_.xfrags[0], name="zz"))
+                    got_ = ml.load(f_, fmt="cdxml", otype="molecule", name="zz")
+                    if got_.formula != want_.formula or got_.n_bonds != want_.n_bonds or got_.name != "zz":
+                        print(f"REPRODUCED: ml.load({os.path.basename(f_)!r}) without a key gives {got_.formula}, the first drawn fragment is {want_.formula}")
+                        sys.exit(0)
+                except BaseException as ex_:
+                    print(f"REPRODUCED: ml.load({os.path.basename(f_)!r}) without a key raised {type(ex_).__name__}")
+                    sys.exit(0)
+        if not bad and fn == "load":
             # the same path is loaded again after the file has been rewritten: the answer must come from the new contents
             import shutil
             d = tempfile.mkdtemp()
